@@ -1,5 +1,6 @@
 (** Extraction roots of the compilation model (driver: extract/drv_compile.ml). *)
-From SP Require Design.Flat Design.Layout Encode.Compile Core.Card Base.Sat.
+From SP Require Design.Flat Design.Layout Design.Sem Encode.Compile Encode.CodeSem Core.Card Base.Sat.
 Definition roots :=
   (Encode.Compile.compile, Encode.Compile.full_cnf, Encode.Compile.apply_constraint,
-   Design.Layout.variables_per_sample, Core.Card.combine_requests, Base.Sat.sat).
+   Design.Layout.variables_per_sample, Core.Card.combine_requests, Base.Sat.sat,
+   Encode.CodeSem.code_sem, Encode.CodeSem.in_f1, Design.Sem.all_valid, Design.Sem.valid_b).
